@@ -60,6 +60,13 @@ class Check(PropertyCheck):
                     job.append(([m], rng.choice([0, 0, 1, 3])))
                 jobs.append(job)
             family, f = "zero_chain", ["dom", "nidle"]
+        elif rng.random() < 0.15:
+            # many jobs (ids beyond 8: hash order of a Python set of ints no longer is numeric order) with tiny
+            # duration ranges: ties between jobs far apart
+            J, M = rng.randint(9, 14), rng.randint(2, 4)
+            jobs = [[([rng.randrange(M)], rng.randint(1, 2)) for _ in range(rng.randint(1, 2))] for _ in range(J)]
+            family = "many_jobs_ties"
+            f = gen.gen_filter(rng)
         lines = ["new", instance_line(jobs), gen.filter_line(f)]
         kind = "solve" if i % 2 == 0 else "states"
         n_acc = 0
